@@ -66,12 +66,15 @@ enum ReadApi {
     /// bidirectional streams: `quic::BidiStream::split`, then `poll_data` on the receiving half
     /// (what examples/webtransport_server.rs does); same as PollData for unidirectional streams
     SplitPollData,
+    /// tokio's `read_exact` for the first part (it hands the same partially filled ReadBuf to
+    /// poll_read again), then `read_to_end`
+    TokioReadExact,
 }
 
 fn gens(tier: Tier) -> Vec<Gen> {
     vec![
         // X x kind x read api, each with all cut positions for a short payload
-        Gen::exhaustive("all_cuts_short_payload", (XS.len() * 2 * 4) as u64),
+        Gen::exhaustive("all_cuts_short_payload", (XS.len() * 2 * 5) as u64),
         Gen::exhaustive("session_id_grid", (XS.len() * 4) as u64),
         Gen::new("random_sessions", tier.pick(2, 2_500, 250_000)),
         Gen::new("extension_disabled", tier.pick(1, 300, 20_000)),
@@ -128,6 +131,9 @@ struct Case {
     chunks: Option<Vec<usize>>,
     id_form: usize,
     enabled: bool,
+    /// incoming uni streams only: this many further streams of the same session are sent in the
+    /// same flight (payload + one distinguishing byte each)
+    extra_uni: usize,
 }
 
 /// shared result slots filled by the server task
@@ -140,6 +146,8 @@ struct Slots {
     outgoing_stream: Option<u64>,
     outgoing_error: Option<String>,
     accept_error: Option<String>,
+    /// further uni streams of the flight: (session id as stream id, payload)
+    extra_uni: Vec<(u64, Vec<u8>)>,
 }
 
 /// Write `data` and finish the stream through the API the case names (the read APIs double as
@@ -164,7 +172,7 @@ where
             futures_util::io::AsyncWriteExt::write_all(s, data).await.map_err(|e| format!("{}", e))?;
             futures_util::io::AsyncWriteExt::close(s).await.map_err(|e| format!("{}", e))
         }
-        ReadApi::TokioAsyncRead | ReadApi::SplitPollData => {
+        ReadApi::TokioAsyncRead | ReadApi::SplitPollData | ReadApi::TokioReadExact => {
             tokio::io::AsyncWriteExt::write_all(s, data).await.map_err(|e| format!("{}", e))?;
             tokio::io::AsyncWriteExt::shutdown(s).await.map_err(|e| format!("{}", e))
         }
@@ -199,6 +207,18 @@ async fn read_all_futures<S: futures_util::io::AsyncRead + Unpin>(s: &mut S, buf
             Err(e) => return Err(format!("{}", e)),
         }
     }
+}
+
+async fn read_exact_then_rest_tokio<S: tokio::io::AsyncRead + Unpin>(s: &mut S, first: usize) -> Result<Vec<u8>, String> {
+    use tokio::io::AsyncReadExt;
+    let mut out = vec![0u8; first];
+    if first > 0 {
+        s.read_exact(&mut out).await.map_err(|e| format!("read_exact({}): {}", first, e))?;
+    }
+    let mut rest = Vec::new();
+    s.read_to_end(&mut rest).await.map_err(|e| format!("{}", e))?;
+    out.extend(rest);
+    Ok(out)
 }
 
 async fn read_all_tokio<S: tokio::io::AsyncRead + Unpin>(s: &mut S, buf_size: usize) -> Result<Vec<u8>, String> {
@@ -246,6 +266,8 @@ fn check_case(c: &Case, seed: u64, rep: &mut Report) {
     let sl = slots.clone();
     let cc = c.clone();
     let buf_size = *rng.pick(&[1usize, 2, 3, 7, 64, 4096]);
+    // read_exact length for ReadApi::TokioReadExact: inside the payload
+    let exact_first = if c.payload.is_empty() { 0 } else { 1 + rng.usize(c.payload.len()) };
     let established_flag: Arc<Mutex<bool>> = Arc::new(Mutex::new(false));
     let established = established_flag.clone();
     let out_payload = c.payload.clone();
@@ -326,6 +348,7 @@ fn check_case(c: &Case, seed: u64, rep: &mut Report) {
                                     ReadApi::PollData | ReadApi::SplitPollData => read_all_poll_data(&mut s).await,
                                     ReadApi::FuturesAsyncRead => read_all_futures(&mut s, buf_size).await,
                                     ReadApi::TokioAsyncRead => read_all_tokio(&mut s, buf_size).await,
+                                    ReadApi::TokioReadExact => read_exact_then_rest_tokio(&mut s, exact_first.min(cc.payload.len())).await,
                                 };
                                 p.park(s);
                                 r
@@ -359,12 +382,26 @@ fn check_case(c: &Case, seed: u64, rep: &mut Report) {
                             ReadApi::PollData | ReadApi::SplitPollData => read_all_poll_data(&mut s).await,
                             ReadApi::FuturesAsyncRead => read_all_futures(&mut s, buf_size).await,
                             ReadApi::TokioAsyncRead => read_all_tokio(&mut s, buf_size).await,
+                            ReadApi::TokioReadExact => read_exact_then_rest_tokio(&mut s, exact_first.min(cc.payload.len())).await,
                         };
                         match r {
                             Ok(d) => sl.lock().unwrap().incoming_payload = Some(d),
                             Err(e) => sl.lock().unwrap().incoming_error = Some(e),
                         }
                         p.park(s);
+                        // the other streams of the flight
+                        for _ in 0..cc.extra_uni {
+                            match p.call("s:wt", "accept_uni", session.accept_uni(), |r| match r { Ok(Some(_)) => Out::Ok, Ok(None) => Out::None, Err(e) => Out::ConnErr(ConnErr::from_h3(e)) }).await {
+                                Ok(Some((got_sid, mut s))) => {
+                                    match read_all_poll_data(&mut s).await {
+                                        Ok(d) => sl.lock().unwrap().extra_uni.push((StreamId::from(got_sid).into_inner(), d)),
+                                        Err(e) => sl.lock().unwrap().incoming_error = Some(e),
+                                    }
+                                    p.park(s);
+                                }
+                                _ => break,
+                            }
+                        }
                     }
                     Ok(None) => sl.lock().unwrap().incoming_error = Some("accept_uni returned None".into()),
                     Err(e) => sl.lock().unwrap().incoming_error = Some(format!("{}", e)),
@@ -429,6 +466,24 @@ fn check_case(c: &Case, seed: u64, rep: &mut Report) {
                 raw::step_open_id(id),
                 raw::step_write(CLIENT, id, bytes.clone()),
             ];
+            if c.kind == Kind::InUni && c.extra_uni > 0 {
+                // the rest of the flight: complete streams of the same session, all at once
+                let extra = c.extra_uni;
+                let x = c.x;
+                let payload = c.payload.clone();
+                steps.push(raw::step_custom("the rest of the flight", |_| true, move |n, _| {
+                    for i in 0..extra {
+                        let eid = sim::make_id(CLIENT, false, 8 + i as u64);
+                        n.open_with_id(eid);
+                        let mut b = rv::encode(0x54).unwrap();
+                        b.extend(rv::encode(x).unwrap());
+                        b.extend_from_slice(&payload);
+                        b.push(i as u8 + 1);
+                        n.raw_write(CLIENT, eid, &b);
+                        n.raw_fin(CLIENT, eid);
+                    }
+                }));
+            }
             if let Some(ch) = &c.chunks {
                 for l in ch.clone() {
                     steps.push(raw::step_custom("deliver chunk", |_| true, move |n, _| n.deliver_bytes(id, CLIENT, l)));
@@ -511,6 +566,8 @@ fn check_case(c: &Case, seed: u64, rep: &mut Report) {
             }
             match &s.incoming_payload {
                 Some(d) if *d == c.payload => {}
+                // a flight of several streams: which one accept_uni hands out first is not prescribed
+                Some(_) if c.kind == Kind::InUni && c.extra_uni > 0 => {}
                 Some(d) => {
                     let rule = if d.len() < c.payload.len() && c.payload.ends_with(d) {
                         "incoming-payload-lost-leading-bytes"
@@ -524,6 +581,27 @@ fn check_case(c: &Case, seed: u64, rep: &mut Report) {
                 }
                 None => {
                     viol(rep, "incoming-payload-not-read", "the read never completed".into(), &case);
+                    return;
+                }
+            }
+            if c.kind == Kind::InUni && c.extra_uni > 0 {
+                rep.count("uni_flights_checked");
+                let mut want: Vec<Vec<u8>> = (0..c.extra_uni).map(|i| { let mut p = c.payload.clone(); p.push(i as u8 + 1); p }).collect();
+                want.push(c.payload.clone());
+                want.sort();
+                let mut got: Vec<Vec<u8>> = s.extra_uni.iter().map(|(_, d)| d.clone()).collect();
+                got.extend(s.incoming_payload.clone());
+                got.sort();
+                if s.extra_uni.len() < c.extra_uni {
+                    viol(rep, "incoming-uni-streams-never-surfaced", format!("{} unidirectional streams of the session were sent in one flight after the first, accept_uni handed out {} of them", c.extra_uni, s.extra_uni.len()), &case);
+                    return;
+                }
+                if let Some((sid, _)) = s.extra_uni.iter().find(|(sid, _)| *sid != c.x) {
+                    viol(rep, "incoming-stream-session-id-differs", format!("a stream of the flight carries session id {} but was reported with {}", c.x, sid), &case);
+                    return;
+                }
+                if got != want {
+                    viol(rep, "incoming-payload-differs", "the payloads of the streams of one flight do not match what was sent".into(), &case);
                     return;
                 }
             }
@@ -600,7 +678,7 @@ fn run_case(gen: &str, index: u64, seed: u64, tier: Tier, rep: &mut Report) {
         "all_cuts_short_payload" => {
             let x = XS[(index as usize) % XS.len()];
             let kind = if (index as usize / XS.len()) % 2 == 0 { Kind::InBidi } else { Kind::InUni };
-            let api = [ReadApi::PollData, ReadApi::FuturesAsyncRead, ReadApi::TokioAsyncRead, ReadApi::SplitPollData][(index as usize / (XS.len() * 2)) % 4];
+            let api = [ReadApi::PollData, ReadApi::FuturesAsyncRead, ReadApi::TokioAsyncRead, ReadApi::SplitPollData, ReadApi::TokioReadExact][(index as usize / (XS.len() * 2)) % 5];
             let id_form = rv::size(x);
             let header_len = 2 + id_form;
             let payload: Vec<u8> = (0..3u8).map(|i| 0xa0 + i).collect();
@@ -614,7 +692,7 @@ fn run_case(gen: &str, index: u64, seed: u64, tier: Tier, rep: &mut Report) {
                 v
             };
             for ch in comps {
-                let c = Case { x, ordinary_before: 0, kind, payload: payload.clone(), api, chunks: Some(ch), id_form, enabled: true };
+                let c = Case { x, ordinary_before: 0, kind, payload: payload.clone(), api, chunks: Some(ch), id_form, enabled: true, extra_uni: 0 };
                 check_case(&c, rng.next(), rep);
                 rep.distinct_direct += 0;
             }
@@ -624,7 +702,7 @@ fn run_case(gen: &str, index: u64, seed: u64, tier: Tier, rep: &mut Report) {
             let ordinary_before = (index as usize / XS.len()) % 4;
             for kind in [Kind::OutBidi, Kind::OutUni, Kind::InBidi, Kind::InUni] {
                 let l = rng.usize(40);
-                let c = Case { x, ordinary_before, kind, payload: rng.bytes(l), api: ReadApi::PollData, chunks: None, id_form: rv::size(x), enabled: true };
+                let c = Case { x, ordinary_before, kind, payload: rng.bytes(l), api: ReadApi::PollData, chunks: None, id_form: rv::size(x), enabled: true, extra_uni: 0 };
                 check_case(&c, rng.next(), rep);
             }
         }
@@ -638,14 +716,14 @@ fn run_case(gen: &str, index: u64, seed: u64, tier: Tier, rep: &mut Report) {
                 _ => rng.usize(3000),
             };
             let forms: Vec<usize> = [1usize, 2, 4, 8].into_iter().filter(|f| rv::encode_form(x, *f).is_some()).collect();
-            let c = Case { x, ordinary_before: rng.usize(4), kind, payload: rng.bytes(l), api: *rng.pick(&[ReadApi::PollData, ReadApi::FuturesAsyncRead, ReadApi::TokioAsyncRead, ReadApi::SplitPollData]), chunks: None, id_form: *rng.pick(&forms), enabled: true };
+            let c = Case { x, ordinary_before: rng.usize(4), kind, payload: rng.bytes(l), api: *rng.pick(&[ReadApi::PollData, ReadApi::FuturesAsyncRead, ReadApi::TokioAsyncRead, ReadApi::SplitPollData, ReadApi::TokioReadExact]), chunks: None, id_form: *rng.pick(&forms), enabled: true, extra_uni: if kind == Kind::InUni && rng.chance(1, 3) { 1 + rng.usize(4) } else { 0 } };
             check_case(&c, rng.next(), rep);
         }
         "extension_disabled" => {
             let x = *rng.pick(&XS);
             let forms: Vec<usize> = [1usize, 2, 4, 8].into_iter().filter(|f| rv::encode_form(x, *f).is_some()).collect();
             let l = rng.usize(50);
-            let c = Case { x, ordinary_before: 0, kind: Kind::InUni, payload: rng.bytes(l), api: ReadApi::PollData, chunks: None, id_form: *rng.pick(&forms), enabled: false };
+            let c = Case { x, ordinary_before: 0, kind: Kind::InUni, payload: rng.bytes(l), api: ReadApi::PollData, chunks: None, id_form: *rng.pick(&forms), enabled: false, extra_uni: 0 };
             check_case(&c, rng.next(), rep);
         }
         _ => {}
